@@ -72,6 +72,16 @@ theorem requirement_url_ends_span (env : ProcEnv) (x : Ext) (input : List Char)
   ⟨parseRequirement_urlEnds_alts env x input alts other hs ch e hm t s l hc lastc hlast h1,
    parseRequirement_urlEnds_other env x input alts other hs⟩
 
+/-- the same for the ambiguity check made when a marker follows the URL (F20) -/
+theorem requirement_url_ends_ok_span (env : ProcEnv) (x : Ext) (input : List Char)
+    (alts : List (Char × PErr)) (r : ReqOk)
+    (hs : (parseRequirement env x input).fin = .urlEndsOk alts r)
+    (ch : Char) (e : PErr) (hm : (ch, e) ∈ alts) (t : List Char) (s l : Nat)
+    (hc : ExtCall.url t s l ∈ (parseRequirement env x input).calls)
+    (lastc : Char) (hlast : t.getLast? = some lastc) (h1 : utf8Len lastc = 1) :
+    Boundary input e.start :=
+  parseRequirement_urlEndsOk_alts env x input alts r hs ch e hm t s l hc lastc hlast h1
+
 theorem extras_never_panic {c : Cursor} (h : c.Inv) : ∀ s, parseExtras c ≠ .panic s :=
   (parseExtras_total h).2.2
 
